@@ -21,6 +21,7 @@ pub struct Norm {
     pub copied_to_map: bool,
     pub opaque_into: bool,
     pub collect_as_set: Vec<String>,
+    pub acc_type: Option<String>,
     pub extend_with: Option<Vec<(String, String)>>,
     pub copied_collect_as: Option<String>,
     pub await_yields: Option<String>,
@@ -352,6 +353,7 @@ impl Norm {
             copied_to_map: req["copied_to_map"].as_bool().unwrap_or(false),
             opaque_into: req["opaque_into"].as_bool().unwrap_or(false),
             collect_as_set: strs("collect_as_set"),
+            acc_type: req["acc_type"].as_str().map(|x| x.to_string()),
             extend_with: req["extend_with"].as_array().map(|a| a.iter().filter_map(|x| x.as_str()).filter_map(|x| x.split_once(':')).map(|(a, b)| (a.to_string(), b.to_string())).collect()),
             copied_collect_as: req["copied_collect_as"].as_str().map(|x| x.to_string()),
             await_yields: req["await_yields"].as_str().map(|x| x.to_string()),
@@ -1343,13 +1345,26 @@ impl VisitMut for Norm {
                                 let body = &c.body;
                                 let acc = self.fresh("vec");
                                 let v = self.fresh("v");
-                                let ne: Expr = parse_quote!({
-                                    let mut #acc = Vec::new();
-                                    for #pat in #it {
-                                        match #body { Some(#v) => { #acc.push(#v); } None => {} }
+                                // (option acc_type=TYPE: the accumulator's type, when invariants need it before inference settles it)
+                                let ne: Expr = match &self.acc_type {
+                                    Some(t) => {
+                                        let ty: Type = syn::parse_str(t).expect("acc_type");
+                                        parse_quote!({
+                                            let mut #acc: #ty = Vec::new();
+                                            for #pat in #it {
+                                                match #body { Some(#v) => { #acc.push(#v); } None => {} }
+                                            }
+                                            #acc
+                                        })
                                     }
-                                    #acc
-                                });
+                                    None => parse_quote!({
+                                        let mut #acc = Vec::new();
+                                        for #pat in #it {
+                                            match #body { Some(#v) => { #acc.push(#v); } None => {} }
+                                        }
+                                        #acc
+                                    }),
+                                };
                                 *e = ne;
                                 self.log("N8j-filter_map-collect-to-loop", sp);
                             }
